@@ -436,8 +436,13 @@ def report(ctx, bad, hmeta, by_tid, fam_by):
                 if clause == "RefinementIndependent":
                     cand = r["per"][part - 1]["g"]
                     b = meta[base[cand]]
+                    cv = next(x["value"] for x in m["parts"] if f"c{x['cand']}" == cand)
+                    bv = next(x["value"] for x in b["parts"] if f"c{x['cand']}" == cand)
+                    tie = cv["sc"] and len(cv["sc"]) == len(bv["sc"]) and all(abs(x - y) < 1e-5 for x, y in zip(cv["sc"], bv["sc"]))
                     if m["univ"] != b["univ"]:
                         shape = "co-candidates-contribute-variants"
+                    elif tie:
+                        shape = "equal-score-tie"          # another optimal assignment of the same model
                     elif m["laststruct"] != b["laststruct"]:
                         shape = "candidates-with-different-structures"
                     else:
@@ -445,8 +450,6 @@ def report(ctx, bad, hmeta, by_tid, fam_by):
                     if (clause, shape, cand) in seen:
                         continue
                     seen.add((clause, shape, cand))
-                    cv = next(x["value"] for x in m["parts"] if f"c{x['cand']}" == cand)
-                    bv = next(x["value"] for x in b["parts"] if f"c{x['cand']}" == cand)
                     ctx.violation(clause, {"clause": clause, "shape": shape},
                                   {"family": fam, "list": r["op"]["g"], "base_list": [f"c{x}" for x in b["L"]], "candidate": cand,
                                    "refinement": cv, "refinement_in_base_list": bv},
